@@ -66,3 +66,9 @@ add("C14",
     "~600 (quick) to ~10^4 (thorough) bases with randomised widths/values at the boundaries and ~2 violations each from a catalogue of ~70 rules; finds unenforced or over-enforced layout/attribute rules and crashes; rules outside the catalogue are not covered.",
     "Trusts: the catalogue as a faithful reading of doc/language-reference.md (fixed-size type in larger field counts as a violation, pinned by constraints_test).",
     "DESIGN.md §4 C14")
+
+add("C12",
+    "differential property-based testing: random scope trees (nested types, enums, imports, parameters, abbreviations, name pools that force reuse) with references at every site kind and injected faults, resolved by an independent resolver written from the documented scoping rules; compared with the canonical names in the compiler's IR / its rejections",
+    "~800 (quick) to ~2*10^4 (thorough) modules; predicted-valid modules must be accepted with every reference bound to the predicted definition and unique, round-tripping canonical names; predicted-faulty ones must be rejected at a predicted site without exception.",
+    "Trusts: embgen/scopes.py's scoping model (from compiler-design.md, probed against the tree); pipeline stopped before annotate_types so only name resolution is judged.",
+    "DESIGN.md §4 C12")
